@@ -35,7 +35,7 @@ def run(ctx):
             blocks = [(1 << p).to_bytes(8, 'big') for p in range(64)] + [bytes(8), b'\xff' * 8] + [rb(8) for _ in range(64 if big else 4)]
             for blk in blocks:
                 ev = dict(op='wb_enc', key=B(K), blk=B(blk), raised='', obs=[])
-                try: ev['obs'] = B(wt.enc(blk))
+                try: ev['obs'] = core.SB(wt.enc(blk))
                 except Exception as ex: ev['raised'] = type(ex).__name__
                 cur.append(ev); ctx.mark((K.hex(), blk.hex()))
         if len(cur) > 150 or ki == len(keys) - 1:
@@ -47,7 +47,7 @@ def run(ctx):
         out = []
         for blk in blocks:
             ev = dict(op='wb_enc', key=B(K), blk=B(blk), raised='', obs=[])
-            try: ev['obs'] = B(wt.enc(blk))
+            try: ev['obs'] = core.SB(wt.enc(blk))
             except Exception as ex: ev['raised'] = type(ex).__name__
             out.append(ev); ctx.mark((note, K.hex(), blk.hex()))
         return out
@@ -61,6 +61,10 @@ def run(ctx):
             for k in (Ka, Kb): KTs[k][r] = wb.table_rKT(r, Bits(k, 64))[1]
             KTs[Kc][15 - r] = wb.table_rKT(15 - r, Bits(Kc, 64))[1]
         for k in (Ka, Kb, Kc): cur += probe(network(KTs[k]), k, few, 'interleaved generation')
+        for order, kk in (([0, 4, 8, 12, 1, 5, 9, 13, 2, 6, 10, 14, 3, 7, 11, 15], Ka), (list(range(0, 16, 2)) + list(range(1, 16, 2)), Kb), ([15, 0, 14, 1, 13, 2, 12, 3, 11, 4, 10, 5, 9, 6, 8, 7], Kc)):
+            KTo = [None] * 16
+            for r in order: KTo[r] = wb.table_rKT(r, Bits(kk, 64))[1]                 # one key, rounds in a non-consecutive order, no other key in between
+            cur += probe(network(KTo), kk, few[:4], 'rounds generated out of order')
         # (2) ONE key object edited in place between two generations
         KB = Bits(Ka, 64); KT1 = [wb.table_rKT(r, KB)[1] for r in range(16)]
         KB[0:64] = Bits(Kb, 64); KT2 = [wb.table_rKT(r, KB)[1] for r in range(16)]
